@@ -30,6 +30,16 @@ CHECKS = {
     technique="TLA+ model of AnalysisRunner and of the writers (Runner.tla, Output.tla) checked by TLC over all configurations x orders x option sets; TLC-generated schedules replayed on the real runner (hook H4) against an independent production oracle; stdout/SARIF/exit of the real binary validated by TLC (RunnerTrace.tla)",
     text="TLC proves report conservation for the model of the runner over every configuration of 2 (thorough: 3) definitions, every look-up relation and every analysis order, and the output contract for every option set. Every schedule TLC emits is executed on the real AnalysisRunner in exactly that order and compared, per definition and as multisets, with what an oracle built only from public stage functions says is produced. The real binary is run on every configuration and on the full (level x allow-subset x sarif x verbose) lattice of a set of projects; its stdout, SARIF file and exit status are accepted or rejected by RunnerTrace.tla.",
     note="Production oracle = public into_cfg/into_ssa/get_analysis_passes with a harness-side context; stdout parser trusted; projects are small (<= 3 definitions in generated configurations plus the base corpus)."),
+ "C17": dict(
+    level="model_checking", design="§5 C17",
+    technique="TLC: order independence of Runner.tla over all configurations and orders; TLC-enumerated project transformations (Transforms.tla) and all analysis orders (hook H4) executed on the real code; repeated fresh processes of the real binary; equality of per-definition finding multisets decided by TLC (TransformTrace.tla)",
+    text="Runner.tla's OrderIndependent invariant is checked for every configuration and analysis order. Every permutation of the base definitions x every split over two named files in both orders x every subset of three unrelated extras (a name sharing a prefix, one failing to lift, one with its own findings) is rendered and run in-process twice; all analysis orders of the base project are replayed through H4; the real binary runs 5 (30) times in fresh processes on 12 (40) projects. TransformTrace.tla accepts a batch iff every base definition has the same multiset of normalised findings in all variants.",
+    note="Hash-map iteration orders cannot be enumerated from outside the process: they are sampled (fresh processes / fresh maps), while the order of definition analysis is enumerated via H4. Findings are normalised to (id, severity, message, label texts)."),
+ "C19": dict(
+    level="model_checking", design="§5 C19",
+    technique="TLA+ model of the include FileStack (Includes.tla) checked by TLC (safety + termination) over all include graphs, placements and named sequences; every TLC-generated project materialised with real paths/symlinks/-L options and run in-process and through the real binary, output validated by RunnerTrace.tla",
+    text="Exhaustive over every include relation on 2 files (thorough: 3, sampled replay) plus a missing target, every placement of the files in the source or library directory and every sequence of named files; spellings (plain, ./, sub/../, symlink, library directory or library file, named via ./ or a symlink) are rotated over the edges. For each project the FileLibrary must hold every reachable file exactly once with the right named/included status, one error located at the include statement per unresolvable edge, the analysed definitions must be exactly those of the named files, included definitions must inform inter-procedural findings, and the run must terminate.",
+    note="Resolution rule of the model: same directory = local, target in the library directory = via -L, otherwise unresolvable; files identified by base name."),
 }
 
 NOT_YET = "check not built yet (work in progress; see DESIGN.md §8 for the order)"
